@@ -42,6 +42,16 @@ func RunFields(conf core.Config, patterns ...string) *core.Result {
 		}
 		enc := map[string][]meth{}
 		dec := map[string][]meth{}
+		decls := map[*types.Func]*ast.FuncDecl{}
+		for _, f := range pkg.Syntax {
+			for _, d := range f.Decls {
+				if fd, ok := d.(*ast.FuncDecl); ok {
+					if fn, ok := info.Defs[fd.Name].(*types.Func); ok {
+						decls[fn] = fd
+					}
+				}
+			}
+		}
 		for _, f := range pkg.Syntax {
 			if strings.HasSuffix(core.Fset.Position(f.Pos()).Filename, "_test.go") {
 				continue
@@ -107,84 +117,7 @@ func RunFields(conf core.Config, patterns ...string) *core.Result {
 						continue
 					}
 					res.Count("codec_method_pairs", 1)
-					whole := false
-					set := map[string]bool{}
-					isRecv := func(x ast.Expr) bool {
-						id, ok := ast.Unparen(x).(*ast.Ident)
-						return ok && core.ObjOf(info, id) == d.recv
-					}
-					// field of the receiver at the root of an access path
-					rootField := func(x ast.Expr) (string, bool) {
-						for {
-							switch y := ast.Unparen(x).(type) {
-							case *ast.SelectorExpr:
-								if isRecv(y.X) {
-									return y.Sel.Name, true
-								}
-								x = y.X
-								continue
-							case *ast.IndexExpr:
-								x = y.X
-								continue
-							case *ast.SliceExpr:
-								x = y.X
-								continue
-							case *ast.StarExpr:
-								x = y.X
-								continue
-							}
-							return "", false
-						}
-					}
-					mark := func(x ast.Expr) {
-						if st, ok := ast.Unparen(x).(*ast.StarExpr); ok && isRecv(st.X) {
-							whole = true
-							return
-						}
-						if f, ok := rootField(x); ok {
-							set[f] = true
-						}
-					}
-					ast.Inspect(d.fd.Body, func(n ast.Node) bool {
-						switch x := n.(type) {
-						case *ast.AssignStmt:
-							for _, l := range x.Lhs {
-								mark(l)
-							}
-						case *ast.IncDecStmt:
-							mark(x.X)
-						case *ast.UnaryExpr:
-							if x.Op == token.AND {
-								mark(x.X)
-							}
-						case *ast.CallExpr:
-							// a pointer method of the receiver may set anything
-							if sel, ok := x.Fun.(*ast.SelectorExpr); ok && isRecv(sel.X) {
-								if fn, _ := typeutil.Callee(info, x).(*types.Func); fn != nil {
-									if sig := fn.Type().(*types.Signature); sig.Recv() != nil {
-										if _, isPtr := sig.Recv().Type().(*types.Pointer); isPtr {
-											whole = true
-										}
-									}
-								}
-							}
-							// slices/arrays handed to a function are filled by it
-							for _, a := range x.Args {
-								if tv, ok := info.Types[a]; ok {
-									switch tv.Type.Underlying().(type) {
-									case *types.Slice, *types.Pointer, *types.Map:
-										if f, ok := rootField(a); ok {
-											set[f] = true
-										}
-										if isRecv(a) {
-											whole = true
-										}
-									}
-								}
-							}
-						}
-						return true
-					})
+					whole, set := storesOf(info, decls, d.fd.Body, d.recv, 0)
 					var fields []string
 					for f := range read {
 						fields = append(fields, f)
@@ -216,4 +149,102 @@ func RunFields(conf core.Config, patterns ...string) *core.Result {
 		}
 	}
 	return res
+}
+
+// storesOf returns the receiver fields a method body stores (assigns,
+// decodes into through their address, hands to a callee as slice/pointer/
+// map) and whether it replaces the receiver as a whole (*recv = …, or hands
+// recv itself on). Pointer methods of the receiver that are declared in the
+// package are followed (depth <= 4); one whose body is not available may set
+// anything.
+func storesOf(info *types.Info, decls map[*types.Func]*ast.FuncDecl, body *ast.BlockStmt, recv types.Object, depth int) (whole bool, set map[string]bool) {
+	set = map[string]bool{}
+	isRecv := func(x ast.Expr) bool {
+		id, ok := ast.Unparen(x).(*ast.Ident)
+		return ok && core.ObjOf(info, id) == recv
+	}
+	// field of the receiver at the root of an access path
+	rootField := func(x ast.Expr) (string, bool) {
+		for {
+			switch y := ast.Unparen(x).(type) {
+			case *ast.SelectorExpr:
+				if isRecv(y.X) {
+					return y.Sel.Name, true
+				}
+				x = y.X
+				continue
+			case *ast.IndexExpr:
+				x = y.X
+				continue
+			case *ast.SliceExpr:
+				x = y.X
+				continue
+			case *ast.StarExpr:
+				x = y.X
+				continue
+			}
+			return "", false
+		}
+	}
+	mark := func(x ast.Expr) {
+		if st, ok := ast.Unparen(x).(*ast.StarExpr); ok && isRecv(st.X) {
+			whole = true
+			return
+		}
+		if f, ok := rootField(x); ok {
+			set[f] = true
+		}
+	}
+	ast.Inspect(body, func(n ast.Node) bool {
+		switch x := n.(type) {
+		case *ast.AssignStmt:
+			for _, l := range x.Lhs {
+				mark(l)
+			}
+		case *ast.IncDecStmt:
+			mark(x.X)
+		case *ast.UnaryExpr:
+			if x.Op == token.AND {
+				mark(x.X)
+			}
+		case *ast.CallExpr:
+			// a pointer method of the receiver
+			if sel, ok := x.Fun.(*ast.SelectorExpr); ok && isRecv(sel.X) {
+				if fn, _ := typeutil.Callee(info, x).(*types.Func); fn != nil {
+					if sig := fn.Type().(*types.Signature); sig.Recv() != nil {
+						if _, isPtr := sig.Recv().Type().(*types.Pointer); isPtr {
+							fd := decls[fn]
+							if fd == nil || fd.Body == nil || depth >= 4 || fd.Recv == nil || len(fd.Recv.List) == 0 || len(fd.Recv.List[0].Names) == 0 {
+								whole = true
+							} else {
+								w, st := storesOf(info, decls, fd.Body, info.Defs[fd.Recv.List[0].Names[0]], depth+1)
+								if w {
+									whole = true
+								}
+								for f := range st {
+									set[f] = true
+								}
+							}
+						}
+					}
+				}
+			}
+			// slices/arrays handed to a function are filled by it
+			for _, a := range x.Args {
+				if tv, ok := info.Types[a]; ok {
+					switch tv.Type.Underlying().(type) {
+					case *types.Slice, *types.Pointer, *types.Map:
+						if f, ok := rootField(a); ok {
+							set[f] = true
+						}
+						if isRecv(a) {
+							whole = true
+						}
+					}
+				}
+			}
+		}
+		return true
+	})
+	return whole, set
 }
